@@ -73,7 +73,9 @@ func (i IPAddr) IsLoopback() bool {
 	// 		The reason for IpV4 is that provided the truncated ip address is a
 	// 		loopback address, its prefix cannot be less than 8 because
 	// 		otherwise its more significant byte cannot be 127
-	return i.Prefix().Masked().Addr().IsLoopback()
+	addr := i.Prefix().Masked().Addr()
+	// netip unmaps IPv4-mapped IPv6 addresses (::ffff:7f00:1) before testing; in Cedar they are plain IPv6 addresses
+	return !addr.Is4In6() && addr.IsLoopback()
 }
 
 func (i IPAddr) Addr() netip.Addr {
@@ -99,7 +101,8 @@ func (i IPAddr) IsMulticast() bool {
 	} else {
 		minPrefixLen = 8
 	}
-	return i.Addr().IsMulticast() && i.Prefix().Bits() >= minPrefixLen
+	// netip unmaps IPv4-mapped IPv6 addresses (::ffff:e000:1) before testing; in Cedar they are plain IPv6 addresses
+	return !i.Addr().Is4In6() && i.Addr().IsMulticast() && i.Prefix().Bits() >= minPrefixLen
 }
 
 func (i IPAddr) Contains(o IPAddr) bool {
